@@ -30,6 +30,17 @@ Proof.
   - rewrite Z.compare_gt_iff in C. split; [lia|]. subst n. lia.
 Qed.
 
+(* ties go to the even integer *)
+Lemma div_rhe_half_even : forall n d, 0 <= n -> 0 < d -> 2 * (n mod d) = d ->
+  Z.even (div_rhe n d) = true.
+Proof.
+  intros n d Hn Hd T. unfold div_rhe. unfold Z.modulo in T.
+  destruct (Z.div_eucl n d) as [q r] eqn:DE.
+  assert (C : (2 * r ?= d) = Eq) by (apply Z.compare_eq_iff; exact T). rewrite C.
+  destruct (Z.even q) eqn:Ev; [exact Ev|].
+  rewrite Z.add_1_r, Z.even_succ, <- Z.negb_even, Ev. reflexivity.
+Qed.
+
 (* ---------- digit strings ---------- *)
 Lemma zeros_repeat : forall k, zeros k = repeat "0" k.
 Proof. induction k; [reflexivity|]. cbn [zeros repeat]. now rewrite IHk. Qed.
@@ -214,6 +225,16 @@ Proof.
   intros [s|s| |s m e] n Hn; cbn [prec_q]; try lia.
   destruct (mag_frac m e) as [N D] eqn:E. destruct (mag_frac_pos _ _ _ _ E) as [HN HD].
   apply div_rhe_spec; [|exact HD]. apply Z.mul_nonneg_nonneg; [lia|]. apply Z.pow_nonneg. lia.
+Qed.
+
+(* when |x| * 10^n is exactly halfway between two integers the even one is printed *)
+Theorem fmt_prec_exec_half_even : forall s m e n N D, 0 <= n -> mag_frac m e = (N, D) ->
+  2 * ((N * 10 ^ n) mod D) = D -> Z.even (prec_q (S754_finite s m e) n) = true.
+Proof.
+  intros s m e n N D Hn E T. cbn [prec_q]. rewrite E.
+  destruct (mag_frac_pos _ _ _ _ E) as [HN HD].
+  apply div_rhe_half_even; [|exact HD|exact T].
+  apply Z.mul_nonneg_nonneg; [lia|]. apply Z.pow_nonneg. lia.
 Qed.
 
 Lemma fmt_prec_exec_text : forall x n, is_finite x = true ->
